@@ -417,6 +417,20 @@ class SymEval:
             return S.call("." + meth, S.sym(recv), *args)
         return S.call("apply", fv, *args)
 
+    def _calls_new_helper(self, call):
+        f = call.func
+        try:
+            if isinstance(f, ast.Name):
+                q = self.prog.qualify(self.func.module, f, self.func)
+                t = self.prog.lookup(q) if q else None
+                return isinstance(t, FunctionInfo) and _new_helper(t)
+            if isinstance(f, ast.Attribute) and isinstance(f.value, ast.Name) and f.value.id == self.selfname and self.cls is not None:
+                m = self.prog.find_method(self.cls, f.attr)
+                return m is not None and _new_helper(m)
+        except Exception:
+            return False
+        return False
+
     def _inline(self, target, args, kwargs, node):
         if self.depth >= 5:
             return None
@@ -434,10 +448,24 @@ class SymEval:
         for p, d in target.defaults.items():
             if p not in bind:
                 sub.env[p] = sub.expr(d)
+        # a helper method called on the same object sees, and may update, the attributes written so far
+        callee_self = target.params[0] if (target.cls is not None and not target.is_staticmethod and target.params) else None
+        same_obj = (callee_self is not None and self.selfname is not None and bool(args) and args[0] == S.sym(self.selfname)
+                    and callee_self in bind)
+        if same_obj:
+            for k, v in self.env.items():
+                if k.startswith(self.selfname + "."):
+                    sub.env[callee_self + k[len(self.selfname):]] = v
         try:
             sub.run()
         except AnalysisError:
             return None
+        if same_obj and len(sub.returns) <= 1:
+            for k, v in sub.env.items():
+                if k.startswith(callee_self + ".") and "[" not in k:
+                    ck = self.selfname + k[len(callee_self):]
+                    if self.env.get(ck) != v:
+                        self.env[ck] = v
         for g, r in sub.raises:
             # a raise inside an inlined helper is a raise of the caller under the caller's path condition
             self.raises.append((S.eand(self.guard(), g), r))
@@ -499,7 +527,12 @@ class SymEval:
             if isinstance(t.value, ast.Name) and ((isinstance(t.slice, ast.Slice) and t.slice.lower is None and t.slice.upper is None and t.slice.step is None)
                                                   or (isinstance(t.slice, ast.Constant) and t.slice.value is Ellipsis)):
                 # x[:] = v / x[...] = v: every element is replaced, the name now stands for v's values
-                self.env[t.value.id] = v
+                cur = self.env.get(t.value.id)
+                if v.is_const and cur is not None and not cur.is_const:
+                    # a scalar fill keeps the array (shape, dtype): filled(array, scalar)
+                    self.env[t.value.id] = S.call("filled", cur, v)
+                else:
+                    self.env[t.value.id] = v
                 return
             k = self._elem_key(t)
             if k is not None:
@@ -564,6 +597,9 @@ class SymEval:
             if self.inline and isinstance(st.value.func, ast.Name):
                 # a bare call statement to a helper that was asked to be inlined (validation factored out)
                 self.expr(st.value)
+            elif self._calls_new_helper(st.value):
+                # a bare call to a helper the reference tree does not have: its raises and attribute updates are the caller's
+                self.expr(st.value)
             # mutating method calls on tracked containers
             f = st.value.func
             if isinstance(f, ast.Attribute) and f.attr in ("append", "extend", "fill", "pop", "update", "sort", "insert"):
@@ -624,9 +660,11 @@ class SymEval:
         self.path = path0 + [t]
         left_t = self.block(st.body)
         env_t = self.env
+        path_t = list(self.path)
         self.env, self.path = dict(env0), path0 + [S.enot(t)]
         left_f = self.block(st.orelse) if st.orelse else False
         env_f = self.env
+        path_f = list(self.path)
         if left_t and left_f:
             self.env, self.path = env0, path0
             return True
@@ -642,13 +680,20 @@ class SymEval:
             if a is None or b is None:
                 merged[k] = a if b is None else b
                 if a is None or b is None:
-                    merged[k] = S.cond(t, a if a is not None else S.unknown("unbound:" + k),
-                                       b if b is not None else S.unknown("unbound:" + k))
+                    # an attribute assigned on one branch only keeps its entry value on the other (a local would be unbound)
+                    other = self._loopsym(k) if ("." in k and "[" not in k) else S.unknown("unbound:" + k)
+                    merged[k] = S.cond(t, a if a is not None else other, b if b is not None else other)
             elif a == b:
                 merged[k] = a
             else:
                 merged[k] = S.cond(t, a, b)
         self.env, self.path = merged, path0
+        # facts learnt inside the branches (guarded exits) survive the merge as a disjunction
+        extra_t, extra_f = path_t[len(path0) + 1:], path_f[len(path0) + 1:]
+        if (extra_t or extra_f) and path_t[:len(path0)] == path0 and path_f[:len(path0)] == path0:
+            fact = S.eor(S.eand(t, *extra_t), S.eand(S.enot(t), *extra_f))
+            if not fact.is_const:
+                self.path = path0 + [fact]
         return False
 
     def _assigned_in(self, body):
